@@ -292,4 +292,105 @@ theorem siftDown_heapOrd (q : PQ) (i : Nat) (hinv : DownInv q.heap i) :
     · subst h; exact ltAt_oob_right (by omega)
     · subst h; exact ltAt_oob_right (by omega)
 
+/-! ### position map and entries through `swap` / `siftUp` / `siftDown` -/
+
+def PosOK (q : PQ) : Prop :=
+  ∀ item idx, posGet q.pos item = some idx ↔ ∃ e, q.heap[idx]? = some e ∧ e.item = item
+
+theorem swap_pos {q : PQ} {i j : Nat} (hi : i < q.heap.size) (hj : j < q.heap.size) :
+    (q.swap i j).pos = posSet (posSet q.pos q.heap[i].item ((posGet q.pos q.heap[j].item).getD 0))
+      q.heap[j].item ((posGet q.pos q.heap[i].item).getD 0) := by
+  unfold PQ.swap
+  simp [hi, hj]
+
+theorem swap_posOK {q : PQ} {i j : Nat} (hi : i < q.heap.size) (hj : j < q.heap.size)
+    (hp : PosOK q) : PosOK (q.swap i j) := by
+  have h1 : posGet q.pos q.heap[i].item = some i := (hp _ _).mpr ⟨q.heap[i], by simp, rfl⟩
+  have h2 : posGet q.pos q.heap[j].item = some j := (hp _ _).mpr ⟨q.heap[j], by simp, rfl⟩
+  have inj1 : ∀ x, posGet q.pos x = some i → x = q.heap[i].item := by
+    intro x hx
+    obtain ⟨e, he, hex⟩ := (hp _ _).mp hx
+    simp [hi] at he; subst he; exact hex.symm
+  have inj2 : ∀ x, posGet q.pos x = some j → x = q.heap[j].item := by
+    intro x hx
+    obtain ⟨e, he, hex⟩ := (hp _ _).mp hx
+    simp [hj] at he; subst he; exact hex.symm
+  intro x idx
+  rw [swap_getElem? hi hj, ← hp, swap_pos hi hj, h1, h2, posGet_posSet, posGet_posSet]
+  simp only [Option.getD_some]
+  unfold tr
+  grind
+
+
+theorem siftUp_size (q : PQ) (i : Nat) : (q.siftUp i).heap.size = q.heap.size := by
+  fun_induction PQ.siftUp q i <;> simp_all
+
+theorem siftDown_size (q : PQ) (i : Nat) : (q.siftDown i).heap.size = q.heap.size := by
+  fun_induction PQ.siftDown q i <;> simp_all
+
+theorem siftUp_posOK (q : PQ) (i : Nat) (hi : i < q.heap.size) (hp : PosOK q) : PosOK (q.siftUp i) := by
+  fun_induction PQ.siftUp q i with
+  | case1 q => exact hp
+  | case2 q i hi0 p hlt ih =>
+    have hps : p < q.heap.size := by have := parent_le i; simp only [p]; omega
+    exact ih (by simpa using hps) (swap_posOK hps hi hp)
+  | case3 q i hi0 p hlt => exact hp
+
+theorem siftDown_posOK (q : PQ) (i : Nat) (hi : i < q.heap.size) (hp : PosOK q) : PosOK (q.siftDown i) := by
+  fun_induction PQ.siftDown q i with
+  | case1 q i l r hr hlr hir ih => exact ih (by simpa using hr) (swap_posOK hr hi hp)
+  | case3 q i l r hr hlr hil ih =>
+    have hl : l < q.heap.size := by omega
+    exact ih (by simpa using hl) (swap_posOK hl hi hp)
+  | case5 q i l r hr hl hil ih => exact ih (by simpa using hl) (swap_posOK hl hi hp)
+  | _ => exact hp
+
+theorem swap_entries (q : PQ) (i j : Nat) : (q.swap i j).entries.Perm q.entries := by
+  by_cases h : i < q.heap.size ∧ j < q.heap.size
+  · unfold PQ.entries
+    rw [swap_heap h.1 h.2]
+    exact (Array.swap_perm h.1 h.2).toList.map _
+  · unfold PQ.swap; simp [h]
+
+theorem siftUp_entries (q : PQ) (i : Nat) : (q.siftUp i).entries.Perm q.entries := by
+  fun_induction PQ.siftUp q i with
+  | case1 q => exact .refl _
+  | case2 q i hi0 p hlt ih => exact ih.trans (swap_entries _ _ _)
+  | case3 q i hi0 p hlt => exact .refl _
+
+theorem siftDown_entries (q : PQ) (i : Nat) : (q.siftDown i).entries.Perm q.entries := by
+  fun_induction PQ.siftDown q i with
+  | case1 q i l r hr hlr hir ih => exact ih.trans (swap_entries _ _ _)
+  | case3 q i l r hr hlr hil ih => exact ih.trans (swap_entries _ _ _)
+  | case5 q i l r hr hl hil ih => exact ih.trans (swap_entries _ _ _)
+  | _ => exact .refl _
+
+theorem inv_iff (q : PQ) : Inv q ↔ HeapOrd q.heap ∧ PosOK q := by
+  constructor
+  · intro ⟨h1, h2, h3⟩
+    constructor
+    · intro j hj
+      by_cases hjs : j < q.heap.size
+      · rw [ltAt_eq (Nat.lt_of_le_of_lt (parent_le j) hjs) hjs]; exact h1 j hjs hj
+      · exact ltAt_oob_right (by omega)
+    · intro item idx
+      constructor
+      · intro h
+        obtain ⟨hlt, he⟩ := h3 item idx h
+        exact ⟨q.heap[idx], by simp [hlt], he⟩
+      · intro ⟨e, he, hei⟩
+        obtain ⟨hlt, rfl⟩ := Array.getElem?_eq_some_iff.mp he
+        rw [← hei]; exact h2 idx hlt
+  · intro ⟨h1, h2⟩
+    refine ⟨?_, ?_, ?_⟩
+    · intro i hi hi0
+      have := h1 i hi0
+      rwa [ltAt_eq (Nat.lt_of_le_of_lt (parent_le i) hi) hi] at this
+    · intro i hi
+      exact (h2 _ _).mpr ⟨q.heap[i], by simp, rfl⟩
+    · intro item idx h
+      obtain ⟨e, he, hei⟩ := (h2 _ _).mp h
+      obtain ⟨hlt, rfl⟩ := Array.getElem?_eq_some_iff.mp he
+      exact ⟨hlt, hei⟩
+
 end WhVerif.C18
